@@ -496,6 +496,25 @@ def execute_aged(desc):
             if len(mine) < 2:
                 raise common.EngineError("the holding run did not start its executables (exit %s %s)" % (holder.code, holder.err[:200]))
             c.wait(lambda: False, age_s)
+            if desc.get("poke"):
+                # somebody else talks to the lock address meanwhile (a port scanner, a TCP health check, a stray
+                # client): connections that are closed at once, reset at once, or send a few bytes first
+                import socket
+                import struct
+                for i in range(desc["poke"]):
+                    try:
+                        k = socket.create_connection(("127.0.0.1", r.lock_port), timeout=1)
+                    except OSError:
+                        break
+                    try:
+                        if i % 3 == 1:
+                            k.setsockopt(socket.SOL_SOCKET, socket.SO_LINGER, struct.pack("ii", 1, 0))   # close -> RST
+                        elif i % 3 == 2:
+                            k.sendall(b"GET / HTTP/1.0\r\n\r\n")
+                    except OSError:
+                        pass
+                    k.close()
+                c.wait(lambda: False, 0.3)
             settle_out(c, r)
             for api in desc["apis"]:
                 before = sc.snapshot(r.out_dir())
@@ -758,6 +777,7 @@ def scenarios(tier):
             out.append({"free": free, "verbosity": "-vv"})
     out.append({"spelling": True, "apis": ["checkpoint_update", "run"] if tier == "quick" else names})
     out.append({"age_s": 1.6, "apis": names})
+    out.append({"age_s": 0.2, "poke": 30, "apis": names})
     out.append({"age_s": 0.9, "bind_ms": 300, "apis": names})
     if tier != "quick":
         out.append({"age_s": 3.5, "apis": names})
@@ -781,7 +801,7 @@ def run(prop, tier):
            "distinct_nontrivial": sum(r["nontrivial"] for r in results),
            "violations": [v for r in results for v in r["violations"]],
            "samples": [r["sample"] for r in results[:: max(1, len(results) // 5)]][:6], "exhaustive": True,
-           "rule": "contenders: every ordered pair (thorough: plus every multiset of 3) over {run, checkpoint update, checkpoint delete, out delete --all}, all started and held at lock.pre; every maximal sequence of {attempt i, finish holder, kill holder (SIGKILL)}, plus for pairs an attempt that is still in progress (2 s, bind timeout raised to 6 s) when the holder finishes or is killed; plus contenders that descend from a holder (a command executable of the holding run, or the orphaned executable of a SIGKILLed run while another run holds, starts each of the four APIs with the environment monorail gave it); plus back-to-back contenders during the exit tail of a run that reuses a slot holding tens of thousands of directories; plus contenders for which the name service of the lock host answers slower than bind_timeout_ms (LD_PRELOAD shim around getaddrinfo) while a run holds the lock; plus every API tried after a run has been holding the lock for longer than bind_timeout_ms (default and configured short) and is still working; plus a first run with -v whose diagnostics go into a pipe with only n free bytes (n swept in steps over everything it prints before its executable starts), so that it stalls at each of its diagnostic lines in turn while a second run is started; plus a configuration without server.lock (default address) with the holder and the contenders naming the repository in four different ways (from inside, -f through a symbolic link, -f with a dir/.. component, from a linked directory); plus lock ports at and beyond the end of the valid range (65535, 65536, 70000, 131072) shared by a holding run and a contender; each sequence executed from scratch on real processes against a repository with a checkpoint and a completed run; invariants: never two contenders past lock acquisition; an attempt while somebody holds exits non-zero with a server lock error, starts no executable and leaves <out_dir> byte-identical (also compared with its state before any contender was started, as long as no holder has worked); an attempt while nobody holds (initially, after exit, after SIGKILL) acquires at once; states = (contender statuses, holder) per contender tuple"}
+           "rule": "contenders: every ordered pair (thorough: plus every multiset of 3) over {run, checkpoint update, checkpoint delete, out delete --all}, all started and held at lock.pre; every maximal sequence of {attempt i, finish holder, kill holder (SIGKILL)}, plus for pairs an attempt that is still in progress (2 s, bind timeout raised to 6 s) when the holder finishes or is killed; plus contenders that descend from a holder (a command executable of the holding run, or the orphaned executable of a SIGKILLed run while another run holds, starts each of the four APIs with the environment monorail gave it); plus back-to-back contenders during the exit tail of a run that reuses a slot holding tens of thousands of directories; plus contenders for which the name service of the lock host answers slower than bind_timeout_ms (LD_PRELOAD shim around getaddrinfo) while a run holds the lock; plus every API tried after thirty connections by a third party to the lock address of a holding run (closed at once, reset, sending bytes); plus every API tried after a run has been holding the lock for longer than bind_timeout_ms (default and configured short) and is still working; plus a first run with -v whose diagnostics go into a pipe with only n free bytes (n swept in steps over everything it prints before its executable starts), so that it stalls at each of its diagnostic lines in turn while a second run is started; plus a configuration without server.lock (default address) with the holder and the contenders naming the repository in four different ways (from inside, -f through a symbolic link, -f with a dir/.. component, from a linked directory); plus lock ports at and beyond the end of the valid range (65535, 65536, 70000, 131072) shared by a holding run and a contender; each sequence executed from scratch on real processes against a repository with a checkpoint and a completed run; invariants: never two contenders past lock acquisition; an attempt while somebody holds exits non-zero with a server lock error, starts no executable and leaves <out_dir> byte-identical (also compared with its state before any contender was started, as long as no holder has worked); an attempt while nobody holds (initially, after exit, after SIGKILL) acquires at once; states = (contender statuses, holder) per contender tuple"}
     by = {}
     for v in agg["violations"]:
         by[v["sig"]] = by.get(v["sig"], 0) + 1
